@@ -543,7 +543,35 @@ def gen_around(rng, info, doc, f, t, docs=None):
         lo = rng.choice([0, 0, 1, 2]) if sl.open_start == 0 else sl.open_start
         hi = rng.choice([0, 0, 1, 2]) if sl.open_end == 0 else sl.open_end
         return ReplaceAroundStep(max(0, s - lo), min(doc.content.size, e + hi), s, e, sl, ins, rng.random() < 0.6)
-    if r < 0.95:
+    if r < 0.955:
+        # plausible but wrong: a gap that starts inside one node and ends inside a *sibling* of it at the same depth (both ends
+        # equally deep, different parents) — not a flat range although the two open depths agree; with a wrapper of one or two
+        # levels around it, or nothing
+        al = aligned_positions(doc)
+        pairs = []
+        for _ in range(12):
+            a, b = sorted((rng.choice(al), rng.choice(al)))
+            try:
+                ra, rb = doc.resolve(a), doc.resolve(b)
+            except Exception:  # noqa: BLE001
+                continue
+            if a < b and ra.depth == rb.depth >= 1 and ra.start(ra.depth) != rb.start(rb.depth):
+                pairs.append((a, b, ra, rb))
+        if pairs:
+            a, b, ra, rb = rng.choice(pairs)
+            d0 = rng.randint(0, ra.depth - 1) if ra.depth > 1 else 0
+            fo = ra.before(d0 + 1) if rng.random() < 0.7 else a
+            to_ = rb.after(d0 + 1) if rng.random() < 0.7 else b
+            types = [t_ for t_ in schema.nodes.values() if not t_.is_leaf and not t_.is_text]
+            k = rng.choice([0, 1, 1, 2])
+            wn, ins = None, 0
+            for _ in range(k):
+                w = rng.choice(types)
+                wn = Node(w, gen_attrs(rng, w), Fragment.from_(wn) if wn is not None else Fragment.empty, [])
+                ins += 1
+            sl = Slice(Fragment.from_(wn), 0, 0) if wn is not None else Slice.empty
+            return ReplaceAroundStep(fo, to_, a, b, sl, ins, rng.random() < 0.5)
+    if r < 0.97:
         # an empty gap at the very end of the range with part of the slice after it (a wrapper around nothing)
         types = [t_ for t_ in schema.nodes.values() if not t_.is_leaf and not t_.is_text]
         w = rng.choice(types)
